@@ -128,7 +128,40 @@ def _patch(R):
         if 'time' in g and isinstance(g['time'], types.ModuleType):
             g['time'] = timestub
         g['isinstance'] = sym_isinstance
-    # transform.py uses scipy.special.legendre / scipy.interpolate.BSpline: see harness C14
+    # transform.py: scipy.special.legendre(n) evaluates through a compiled ufunc (eval_legendre); model it by the polynomial with
+    # SciPy's own coefficient vector (np.poly1d: Horner evaluation works on symbolic arguments, .deriv is the same method)
+    if R.transform is not None and 'legendre' in R.transform.__dict__:
+        real_legendre = R.transform.__dict__['legendre']
+
+        class PolyModel(object):
+            """polynomial with SciPy's coefficient vector; Horner evaluation on any scalar/array type"""
+
+            def __init__(self, coeffs):
+                self.coeffs = list(coeffs)
+
+            def __call__(self, x):
+                y = 0 * x
+                for c in self.coeffs:
+                    y = y * x + c
+                return y
+
+            def deriv(self, m=1):
+                p = _np.poly1d(_np.asarray(self.coeffs, dtype=float)) if all(isinstance(c, (float, int, _np.floating)) for c in self.coeffs) else None
+                if p is not None:
+                    return PolyModel(list(p.deriv(m).coeffs))     # numpy's own polyder (float arithmetic), as in production
+                cs = self.coeffs
+                for _ in range(m):
+                    n_ = len(cs) - 1
+                    cs = [c * (n_ - i) for i, c in enumerate(cs[:-1])] or [0.0]
+                return PolyModel(cs)
+
+            def __mul__(self, s):
+                return PolyModel([c * s for c in self.coeffs])
+            __rmul__ = __mul__
+
+        def legendre_model(n, *a, **k):
+            return PolyModel([float(c) for c in real_legendre(n, *a, **k).coeffs])
+        R.transform.__dict__['legendre'] = legendre_model
 
 
 class Tracer(object):
